@@ -16,6 +16,8 @@ var Checks = map[string]vk.Check{
 	"C03": C03,
 	"C02": C02,
 	"C09": C09,
+	"C13": C13,
+	"C08": C08,
 }
 
 // TestWorker is the entry point of the worker binary (`go test -c`): synctest needs a
